@@ -172,6 +172,15 @@ func (o *oracle) after(line, res string, pre, st *mstate, kc kase, all bool) boo
 			}
 		}
 	}
+	if own("C32") && pre != nil && st.branches[st.cur] != pre.branches[pre.cur] && st.cur == pre.cur {
+		nh := st.branches[st.cur]
+		if ps := st.parents[nh]; len(ps) > 0 {
+			if _, known := pre.parents[nh]; !known {
+				o.diffBrute(im.hashes[ps[0]], im.hashes[nh], kc)
+				o.patchRoundTrip(st.cur, im.hashes[ps[0]], im.hashes[nh], kc)
+			}
+		}
+	}
 	if own("C32") && len(st.W) > 0 && (replay || o.chance(10, 100, false)) {
 		o.diffTableEdges(hx.Pick(o.r, st.W).Name, st, kc)
 	}
@@ -795,6 +804,23 @@ func (o *oracle) asOfAll(st *mstate, kc kase) {
 			break
 		}
 		x = st.parents[x][0]
+	}
+	// every HEAD~k (k ≤ 4) must read the k-th first parent, whatever commit was picked above
+	{
+		y := st.branches[st.cur]
+		for k := 1; k <= 4 && len(st.parents[y]) > 0; k++ {
+			y = st.parents[y][0]
+			a, e1 := im.readRoot(fmt.Sprintf("HEAD~%d", k))
+			b, e2 := im.readRoot(im.hashes[y])
+			if e1 != nil || e2 != nil {
+				o.rep.Violate("C33/as-of/error", fmt.Sprintf("reading HEAD~%d or its commit %d failed: %v %v", k, y, e1, e2), kc)
+				continue
+			}
+			o.rep.Hit("oracle/C33/head-tilde")
+			if showRoot(a) != showRoot(b) {
+				o.rep.Violate("C33/as-of/tilde", fmt.Sprintf("AS OF 'HEAD~%d' returns %s but the %d-th first parent (commit %d) holds %s", k, showRoot(a), k, y, showRoot(b)), kc)
+			}
+		}
 	}
 	sort.Strings(spell)
 	for _, s := range spell {
